@@ -450,6 +450,158 @@ theorem ctor_options (a : CtorArgs) (t : Tbl) (h : mkTable a = .ok t) :
     simp only [hn, List.mem_filter, Bool.not_eq_true', List.contains_eq_mem, decide_eq_false_iff_not] at hc
     exact hc.2
 
+/-- A format object does not remember printing. Whether the donor table was printed before or after
+its format was handed to `fmt_obj=` makes no difference: the new table is the same (the clone forgets
+the negotiated widths and the skipped-lines flag), so siblings made from one format object never see
+each other's or the donor's widths. -/
+theorem fmt_obj_ignores_printing (u u' : Tbl) (ls : List Line) (h : render u = .ok (u', ls))
+    (recs : List Record) (lims : Option (Option Int × Option Int)) (skip : Option (List (List Char)))
+    (hdr ftr : Option (List Char)) :
+    mkTableFromFmt u'.fmt recs lims skip hdr ftr = mkTableFromFmt u.fmt recs lims skip hdr ftr := by
+  obtain ⟨tls, ws, nT, body, R⟩ := render_elim h
+  have hcols := finalWidths_cols _ _ _ R.ws_eq
+  have hc : u'.fmt.cols.map Col.reset = u.fmt.cols.map Col.reset := by
+    rw [R.state_eq]; simp only [printed]; rw [reset_setWidths, hcols]
+  have hf : cloneFmt u'.fmt = cloneFmt u.fmt := by
+    have h1 : u'.fmt.fields = u.fmt.fields := by rw [R.state_eq]; rfl
+    have h2 : u'.fmt.limF = u.fmt.limF := by rw [R.state_eq]; rfl
+    have h3 : u'.fmt.limL = u.fmt.limL := by rw [R.state_eq]; rfl
+    have hc' : (u'.fmt.cols.map fun c => { c with width := Option.none })
+        = (u.fmt.cols.map fun c => { c with width := Option.none }) := hc
+    simp only [cloneFmt, h1, h2, h3, hc']
+  simp only [mkTableFromFmt, hf]
+
+/-- Fields by position. In `fields=[…]` a name at index `i` is the field `record[i]` — whatever stands
+before it in the list — and a ready `RecordField` object keeps its own position; type and title are
+the element's own. -/
+theorem field_positions (specs : List FieldSpec) (i : Nat) (sp : FieldSpec) (h : specs[i]? = some sp) :
+    (mkFields 0 specs)[i]? = some ⟨sp.name, sp.ftype, sp.posAt i, genTitleLines sp.title sp.name⟩ ∧
+    (sp.pos = Option.none → sp.posAt i = i) ∧ (∀ p, sp.pos = some p → sp.posAt i = p) := by
+  have gen : ∀ (l : List FieldSpec) (k j : Nat), l[j]? = some sp →
+      (mkFields k l)[j]? = some ⟨sp.name, sp.ftype, sp.posAt (k + j), genTitleLines sp.title sp.name⟩ := by
+    intro l
+    induction l with
+    | nil => intro k j hj; simp at hj
+    | cons s ss ih =>
+      intro k j hj
+      cases j with
+      | zero =>
+        simp only [List.getElem?_cons_zero, Option.some.injEq] at hj
+        subst hj
+        simp [mkFields]
+      | succ m =>
+        simp only [List.getElem?_cons_succ] at hj
+        have := ih (k + 1) m hj
+        simp only [mkFields, List.getElem?_cons_succ]
+        rw [this, show k + 1 + m = k + (m + 1) by omega]
+  refine ⟨by simpa using gen specs 0 i h, ?_, ?_⟩
+  · intro hp; simp [FieldSpec.posAt, hp]
+  · intro p hp; simp [FieldSpec.posAt, hp]
+
+/-- Bounds given through the setter are the column's bounds — zero included. Every column that
+`table.fmt = "…"` makes comes from one column description of the string, with that description's
+field, modifier and break-by mark, and with exactly the bounds written there (`n` = `n-n`; `0` is
+`0`), or the field type's own bounds when none are written; hidden (`:-1`) descriptions make no
+column. The same holds for the constructor (`ctor_bounds`). -/
+theorem setter_bounds (fields : List Field) (ps : List PCol) (cols : List Col)
+    (h : setterCols fields ps = .ok cols) :
+    ∀ c ∈ cols, ∃ p ∈ ps, findField fields p.fieldName = some c.field ∧ c.modifier = p.modifier ∧
+      c.breakBy = p.breakBy ∧ c.width = Option.none ∧
+      (match p.width with
+        | .range a b => c.minW = a ∧ c.maxW = b
+        | .unspec => c.minW = c.field.ftype.minW ∧ c.maxW = c.field.ftype.maxW
+        | .hidden => False) := by
+  induction ps generalizing cols with
+  | nil => simp [setterCols] at h; subst h; simp
+  | cons p ps ih =>
+    unfold setterCols at h
+    cases hf : findField fields p.fieldName with
+    | none => simp [hf] at h
+    | some f =>
+      simp only [hf] at h
+      cases hw : p.width with
+      | hidden =>
+        simp only [hw] at h
+        intro c hc
+        obtain ⟨q, hq, rest⟩ := ih cols h c hc
+        exact ⟨q, List.mem_cons_of_mem _ hq, rest⟩
+      | unspec =>
+        simp only [hw, bind_ok] at h
+        obtain ⟨c0, hc0, rest, hr, h⟩ := h
+        cases h
+        simp only [mkCol, bind_ok] at hc0
+        obtain ⟨_, _, hc0⟩ := hc0
+        cases hc0
+        intro c hc
+        rcases List.mem_cons.mp hc with rfl | hc
+        · exact ⟨p, List.mem_cons_self, hf, rfl, rfl, rfl, by rw [hw]; exact ⟨rfl, rfl⟩⟩
+        · obtain ⟨q, hq, r⟩ := ih rest hr c hc
+          exact ⟨q, List.mem_cons_of_mem _ hq, r⟩
+      | range a b =>
+        simp only [hw, bind_ok] at h
+        obtain ⟨c0, hc0, rest, hr, h⟩ := h
+        cases h
+        simp only [mkCol, bind_ok] at hc0
+        obtain ⟨_, _, hc0⟩ := hc0
+        cases hc0
+        intro c hc
+        rcases List.mem_cons.mp hc with rfl | hc
+        · exact ⟨p, List.mem_cons_self, hf, rfl, rfl, rfl, by rw [hw]; exact ⟨rfl, rfl⟩⟩
+        · obtain ⟨q, hq, r⟩ := ih rest hr c hc
+          exact ⟨q, List.mem_cons_of_mem _ hq, r⟩
+
+/-- the constructor's columns carry exactly the bounds written in the format, zero included -/
+theorem ctor_bounds (fields : List Field) (ps : List PCol) (cols : List Col)
+    (h : ctorCols fields ps = .ok cols) :
+    ∀ c ∈ cols, ∃ p ∈ ps, findField fields p.fieldName = some c.field ∧ c.modifier = p.modifier ∧
+      c.breakBy = p.breakBy ∧ c.width = Option.none ∧
+      (match p.width with
+        | .range a b => c.minW = a ∧ c.maxW = b
+        | .unspec => c.minW = c.field.ftype.minW ∧ c.maxW = c.field.ftype.maxW
+        | .hidden => False) := by
+  induction ps generalizing cols with
+  | nil => simp [ctorCols] at h; subst h; simp
+  | cons p ps ih =>
+    unfold ctorCols at h
+    cases hw : p.width with
+    | hidden =>
+      simp only [hw] at h
+      intro c hc
+      obtain ⟨q, hq, rest⟩ := ih cols h c hc
+      exact ⟨q, List.mem_cons_of_mem _ hq, rest⟩
+    | unspec =>
+      simp only [hw] at h
+      cases hf : findField fields p.fieldName with
+      | none => simp [hf] at h
+      | some f =>
+        simp only [hf, bind_ok] at h
+        obtain ⟨c0, hc0, rest, hr, h⟩ := h
+        cases h
+        simp only [mkCol, bind_ok] at hc0
+        obtain ⟨_, _, hc0⟩ := hc0
+        cases hc0
+        intro c hc
+        rcases List.mem_cons.mp hc with rfl | hc
+        · exact ⟨p, List.mem_cons_self, hf, rfl, rfl, rfl, by rw [hw]; exact ⟨rfl, rfl⟩⟩
+        · obtain ⟨q, hq, r⟩ := ih rest hr c hc
+          exact ⟨q, List.mem_cons_of_mem _ hq, r⟩
+    | range a b =>
+      simp only [hw] at h
+      cases hf : findField fields p.fieldName with
+      | none => simp [hf] at h
+      | some f =>
+        simp only [hf, bind_ok] at h
+        obtain ⟨c0, hc0, rest, hr, h⟩ := h
+        cases h
+        simp only [mkCol, bind_ok] at hc0
+        obtain ⟨_, _, hc0⟩ := hc0
+        cases hc0
+        intro c hc
+        rcases List.mem_cons.mp hc with rfl | hc
+        · exact ⟨p, List.mem_cons_self, hf, rfl, rfl, rfl, by rw [hw]; exact ⟨rfl, rfl⟩⟩
+        · obtain ⟨q, hq, r⟩ := ih rest hr c hc
+          exact ⟨q, List.mem_cons_of_mem _ hq, r⟩
+
 /-- where `WidthsFaithful` comes from: tables without negotiated widths have it, printing keeps it -/
 theorem widths_faithful (t : Tbl) :
     ((∀ c ∈ t.fmt.cols, c.width = Option.none) → WidthsFaithful t) ∧
